@@ -119,6 +119,21 @@ EQUIV = [
     ('hex escape of the last code point', '[x="\U0010ffff"]', ['[x="\\10ffff "]', '[x="\\10FFFF"]', '[x="\\10FFFF "]']),
     ('hex escape of the last code point in an identifier', '.a\U0010ffff', ['.a\\10ffff ', '.a\\10FFFF']),
     ('hex escape in an identifier, astral', '#\U0001f600', ['#\\1f600 ', '#\\01F600']),
+    ('escapes in the name of :nth-child', ':nth-child(2)', [':\\6e th-child(2)', ':n\\74 h-child(2)', ':\\4E th-child(2)', ':nth-\\43 hild(2)', ':nth-chil\\64 (2)']),
+    ('escapes in the name of :nth-last-of-type', ':nth-last-of-type(2n+1)', [':nth-\\4C ast-of-type(2n+1)', ':nth-last-\\4f f-type(2n+1)', ':\\6e th-last-of-type(2n+1)']),
+    ('escapes in the name of :not', ':not(a)', [':n\\6ft(a)', ':\\4e OT(a)', ':no\\74 (a)']),
+    ('escapes in the name of :is / :where / :has', ':is(a):where(b):has(> c)', [':\\69s(a):w\\68 ere(b):h\\61s(> c)', ':\\49 S(a):WHER\\45 (b):ha\\53 (> c)']),
+    ('escapes in the name of a simple pseudo-class', ':first-child:root:checked', [':f\\69rst-child:r\\6f ot:\\63 hecked', ':\\46 irst-child:roo\\54 :CHECKE\\44 ']),
+    ('escapes in :lang / :dir / :-soup-contains names', ':lang(en):dir(ltr):-soup-contains(x)', [':l\\61ng(en):d\\69r(ltr):-soup-c\\6f ntains(x)', ':\\4c ANG(en):DI\\52 (ltr):-SOUP-\\43 ONTAINS(x)']),
+    ('escapes in the attribute name type', '[type=TEXT]', ['[t\\79pe=TEXT]', '[\\74ype=TEXT]', '[typ\\65=TEXT]', '[typ\\65 =TEXT]']),
+    ('escapes in the attribute name type, with operator', '[type^="Te"]', ['[t\\79pe^="Te"]', '[typ\\65 ^="Te"]']),
+    ('escapes in a namespaced attribute name', '[*|type="A"]', ['[*|t\\79pe="A"]', '[*|typ\\65="A"]']),
+    ('an identifier range that begins with an escaped quote', ':lang("\\"de\\"")', [':lang(\\"de\\")', ':lang(\\22 de\\22 )']),
+    ('an identifier needle that begins with an escaped quote', ':-soup-contains("\\"a b\\"")', [':-soup-contains(\\"a\\ b\\")']),
+    ('an attribute value that begins with an escaped quote', '[x="\\"q\\""]', ['[x=\\"q\\"]', "[x='\\22q\\22']"]),
+    ('comments in a :-soup-contains() list', ':-soup-contains("a", "b")', [':-soup-contains("a" /* or */ , "b")', ':-soup-contains(/* x */"a"/* "y" */,/* z */"b"/**/)', ':-soup-contains("a",/* , "c" */ "b")']),
+    ('comments in a :lang() list', ':lang(en, fr)', [':lang(en /* de */ , fr)', ':lang(/* x */ en,/* , it */ fr /* y */)']),
+    ('comments around of in :nth-child()', ':nth-child(2n+1 of p)', [':nth-child(2n+1/* c */ of p)', ':nth-child(2n+1 of/* c */ p)', ':nth-child(2n+1 /* c */of/* d */ p)', ':nth-child(2n+1/**/ of /**/p)']),
     ('case of a pseudo-class name', ':is(a)', [':IS(a)', ':Is(a)']),
     ('case of :not', ':not(a)', [':NOT(a)', ':Not(a)']),
     ('case of :has', ':has(> a)', [':HAS(> a)']),
@@ -140,12 +155,14 @@ EQUIV = [
 ]
 
 
-def equivalent_spellings_table(ctx, rule):
+def equivalent_spellings_table(ctx, rule, only=None):
     """Escapes, quoting styles and letter case in keywords: the listed spellings compile to the structure of the canonical one."""
     custom = {':--foo': 'a.b'}
     bad = None
     n = 0
     for what, canon, others in EQUIV:
+        if only is not None and not any(o in what for o in only):
+            continue
         cust = custom if '--' in canon else None
         base = compile_text(ctx, canon, custom=cust)
         if base.raises:
@@ -344,6 +361,7 @@ def error_type_table(ctx, rule, depth=2, custom_too=True):
               '\\', 'a\\', '\\\n', '"', ':--', ':--x:--x', 'a|', '|a', '*|', 'a||b', '.#', '#.', '..a', 'a::before', '@media', 'a @b', ':has()', ':has(>)', ':has(> a,)',
               ':is(a', ':is(a))', ')', '(', ':not(:not(:not(a', '\\110000', '\\ffffff ', '\\0', 'a\x00b', '\x00', ':nth-child(99999999999999999999999999n+1)',
               ':nth-child(1' + '0' * 60 + ')', '[a="\\"]', "[a='\\']", ':root(', ':root()', ':foo', ':foo(a)', '::', ':', 'a:', 'a.', 'a#', 'a[', '$', '^=a', '[^=a]', '[a^]',
+              'a[b][', 'a[href], p[id', ':is([a]) [', '/* ] */ a[b', '[a="]"] [', 'a[b] c[', '"]" [', 'a[b]]', ']', 'a]', '[[a]]', '[a][', '[a] [b', '[a=b]c[d=',
               '[a i]', '[a=b x]', '[a=b i s]', 'A|B|C', '\r\n', '\f', ' ', '\t\t', 'a\r\n,\r\nb', '\ud800', '\udc00\ud800', 'a\U0010ffffb', '-', '--', '-1', '1a', 'a,,b']
     bad = None
     pos_bad = None
@@ -377,6 +395,17 @@ def error_type_table(ctx, rule, depth=2, custom_too=True):
                     pats = [a for a in args[1:] if isinstance(a, str)]
                     if ints and pats and not (0 <= ints[0] <= len(pats[0])):
                         pos_bad = (f'{text} with custom {{{name!r}: {definition!r}}}', ints[0], pats[0])
+        # the documented KeyError belongs to two names that differ only in case - and to nothing else: the same name spelled once
+        # plainly and once with an escape is not that case, whichever comes first
+        for custom, dup_by_case in (({':--a': 'p', ':--A': 'div'}, True), ({':--A': 'p', ':--a': 'div'}, True), ({':--a': 'p', ':--\\61': 'div'}, False),
+                                    ({':--\\61': 'p', ':--a': 'div'}, False), ({':--x-y': 'p', ':--x\\-y': 'div'}, False), ({':--x\\-y': 'p', ':--x-y': 'div'}, False),
+                                    ({':--caf\\e9': 'p', ':--caf\u00e9': 'div'}, False), ({':--a': 'p', ':--b': 'div', ':--\\62': 'i'}, False)):
+            got = compile_text(ctx, 'p', custom=custom, cache=False)
+            n += 1
+            kinds[got.raises or 'compiles'] = kinds.get(got.raises or 'compiles', 0) + 1
+            ok = (got.raises == 'KeyError') if dup_by_case else (got.raises in (None,) + tuple(ALLOWED))
+            if not ok and bad is None:
+                bad = (f'p with custom {custom!r} (names {"differ only in case" if dup_by_case else "do not differ only in case"})', got)
         # errors inside (multi-line, nested) custom definitions: the offset belongs to the text the error shows
         for custom in ({':--x': 'div > , p'}, {':--x': 'a,\n\n  b > > c'}, {':--x': ':--y', ':--y': 'p:is(a, b'}, {':--x': 'a' * 30 + ' $'}, {':--x': 'ok', ':--y': '[a='}):
             for text in ('a:--x', ':--x', 'p, :--y'):
@@ -567,3 +596,30 @@ def custom_cycle_table(ctx, rule):
                        + (f' ({got.message})' if got.message else '') + f'; expected: {want or "compiles"}. A definition that needs itself must be '
                        f'refused with SelectorSyntaxError (a nested parser that still sees the name recurses until RecursionError), and a name '
                        f'must stay defined after it was expanded')
+
+
+def debug_invariance_table(ctx, rule):
+    """The DEBUG flag changes no result: a pool of valid and malformed texts (with %, braces, backslashes, quotes, line breaks,
+    custom selectors) compiles to the same structure / raises the same error with and without the flag."""
+    DEBUG = ctx.consts.const('util', 'DEBUG')
+    texts = ['a', 'a > b, c', '[width="100%"]', ':-soup-contains("50% off")', '[a="%s"]', '[a="%(x)s %d"]', '.a\\%b', '#\\{x\\}', '[a="{0}"]', '[a="{"]', ':is(a, b):not(.c)',
+             'p:nth-child(2n+1 of .x)', ':lang("de-*", en)', ':dir(rtl)', 'a::b', '@x', 'a[', 'a > > b', ':is(a', '%', 'a %', '[a=%]', ':--c', 'x:--c > y', '\\', 'a\\',
+             'a\r\n,\r\nb', '/* % */ a', ':root:empty:checked', ':has(> a, + b)', 'ns|a[ns|b="c" i]']
+    custom = {':--c': 'div.x[y="100%"]'}
+    prefetch(ctx, texts, flags=0, custom=custom)
+    prefetch(ctx, texts, flags=DEBUG, custom=custom)
+    bad = None
+    for t in texts:
+        plain = compile_text(ctx, t, 0, custom)
+        dbg = compile_text(ctx, t, DEBUG, custom)
+        same = plain == dbg and plain.message == dbg.message
+        rule.instance({'text': t, 'without_DEBUG': plain.raises or 'compiles', 'with_DEBUG': dbg.raises or 'compiles', 'same': same}, key=f'debug|{t}', sample_cap=6)
+        if not same and bad is None:
+            bad = (t, plain, dbg)
+    rule.obligation(bad is None)
+    if bad is not None:
+        t, plain, dbg = bad
+        rule.violation(f'DEBUG changes the result for `{t}`', 'soupsieve/css_parser.py (debug output)',
+                       f'compiling {t!r} {"raises " + plain.raises if plain.raises else "succeeds"} without the DEBUG flag and '
+                       f'{"raises " + dbg.raises + (" (" + str(dbg.message) + ")" if dbg.message else "") if dbg.raises else "succeeds with a different structure"} '
+                       f'with it: the flag must only print')
